@@ -241,7 +241,11 @@ func val(b []byte) *util.SecureSerializableValue { return &util.SecureSerializab
 
 func (w *world) fail(oracle, class, f string, a ...interface{}) {
 	if w.v == nil {
-		w.v = &sim.Violation{Property: w.prop, Oracle: oracle, Class: class, Detail: fmt.Sprintf(f, a...), Step: w.step}
+		d := fmt.Sprintf(f, a...)
+		if len(d) > 3000 {
+			d = d[:1500] + fmt.Sprintf(" ...[%d bytes]... ", len(d)-3000) + d[len(d)-1500:]
+		}
+		w.v = &sim.Violation{Property: w.prop, Oracle: oracle, Class: class, Detail: d, Step: w.step}
 	}
 }
 
